@@ -49,7 +49,7 @@ func InstantiateEnv(ctx context.Context, r wazero.Runtime, m *ModSpec, log *Host
 	b := r.NewHostModuleBuilder("env")
 	for i, h := range m.Hosts {
 		h := h
-		b = b.NewFunctionBuilder().WithGoModuleFunction(api.GoModuleFunc(func(ctx context.Context, mod api.Module, stack []uint64) {
+		body := func(stack []uint64) {
 			args := make([]uint64, len(h.Sig.P))
 			copy(args, stack[:len(h.Sig.P)])
 			for j, t := range h.Sig.P {
@@ -59,7 +59,15 @@ func InstantiateEnv(ctx context.Context, r wazero.Runtime, m *ModSpec, log *Host
 			}
 			log.Events = append(log.Events, append([]uint64{uint64(h.H)}, args...))
 			copy(stack, StdHost(h.H, args, h.Sig.R))
-		}), vts(h.Sig.P), vts(h.Sig.R)).Export(fmt.Sprintf("h%d", i))
+		}
+		// both stack-based definition styles: odd hosts take no api.Module (api.GoFunction), even ones do
+		if h.H%2 == 1 {
+			b = b.NewFunctionBuilder().WithGoFunction(api.GoFunc(func(ctx context.Context, stack []uint64) { body(stack) }),
+				vts(h.Sig.P), vts(h.Sig.R)).Export(fmt.Sprintf("h%d", i))
+		} else {
+			b = b.NewFunctionBuilder().WithGoModuleFunction(api.GoModuleFunc(func(ctx context.Context, mod api.Module, stack []uint64) { body(stack) }),
+				vts(h.Sig.P), vts(h.Sig.R)).Export(fmt.Sprintf("h%d", i))
+		}
 	}
 	_, err := b.Instantiate(ctx)
 	return err
